@@ -48,3 +48,24 @@ Theorem C07_unknown_until_defined : forall (V : Type) k (v : V) m id,
   lookup id m = None -> id <> k -> lookup id (insert k v m) = None.
 Proof. intros V k v m id H Hne. now rewrite lookup_insert_neq. Qed.
 Print Assumptions C07_unknown_until_defined.
+
+From Coq Require Import Lia.
+
+(* non-vacuity, and the property at call level on concrete input: data for an id the parser has
+   no template for -- V9: the packet is one Error, caches unchanged; IPFIX: the message is
+   reported without the set, caches unchanged; after the template arrives the same V9 data
+   bytes decode *)
+Example C07_example :
+  let tmpl := [x00; x09; x00; x01; x00; x00; x00; x01; x00; x00; x00; x02; x00; x00; x00; x03; x00; x00; x00; x04; x00; x00; x00; x0c; x01; x00; x00; x01; x00; x08; x00; x04] in
+  let data := [x00; x09; x00; x01; x00; x00; x00; x01; x00; x00; x00; x02; x00; x00; x00; x05; x00; x00; x00; x04; x01; x00; x00; x08; x01; xbb; x00; x35] in
+  let ixu := [x00; x0a; x00; x18; x00; x00; x00; x01; x00; x00; x00; x02; x00; x00; x00; x03; x01; x01; x00; x08; x01; xbb; x00; x35] in
+  (match parse_bytes true (allow_list default_allowed) empty_state data with
+   | Some [(PErr (NPartial 9 _ _) rem, s)] => rem = data /\ s = empty_state
+   | _ => False end)
+  /\ (match parse_bytes true (allow_list default_allowed) empty_state ixu with
+      | Some [(PIx p, s)] => ix_sets p = [] /\ s = empty_state
+      | _ => False end)
+  /\ (match parse_bytes true (allow_list default_allowed) empty_state (tmpl ++ data) with
+      | Some [(PV9 _, _); (PV9 p, _)] => exists recs, v9_sets p = [ {| fs_id := 256; fs_len := 8; fs_body := V9Data recs [] |} ] /\ length recs = 1%nat
+      | _ => False end).
+Proof. vm_compute. repeat split; try reflexivity. eexists. split; reflexivity. Qed.
